@@ -36,6 +36,16 @@ func init() {
 		"\tcase probeSpec.Condition != nil:\n\t\treturn &probing.ConditionProbe{\n\t\t\tType:   probeSpec.Condition.Type,\n\t\t\tStatus: probeSpec.Condition.Status,\n\t\t}, true, nil\n" +
 		"\tcase probeSpec.CEL != nil:\n\t\tcelProbe, err := probing.NewCELProbe(probeSpec.CEL.Rule, probeSpec.CEL.Message)\n\t\tif err != nil {\n\t\t\treturn nil, false, err\n\t\t}\n\t\treturn celProbe, true, nil\n" +
 		"\tdefault:\n\t\treturn nil, false, nil\n\t}\n}\n\n"
+	// the same helper the way it comes out of an "extract the switch" refactoring: named results, the
+	// probe assigned per case, the error test of the CEL case inside the helper, one shared success
+	// return behind the switch (the construction of the CEL probe branches into the helper's error
+	// return and its success return; after the merge only the tests of the merged results tell them apart)
+	const prsHelperCall2 = "\t\tprober, known, err := c17tParseProbe(probeSpec)\n\t\tif err != nil {\n\t\t\treturn nil, err\n\t\t}\n\t\tif !known {\n\t\t\t// probe has no known config\n\t\t\tcontinue\n\t\t}\n\t\tprobe := prober\n"
+	const prsHelper2 = "func c17tParseProbe(probeSpec corev1alpha1.Probe) (prober probing.Prober, known bool, err error) {\n\tswitch {\n" +
+		"\tcase probeSpec.FieldsEqual != nil:\n\t\tprober = &probing.FieldsEqualProbe{\n\t\t\tFieldA: probeSpec.FieldsEqual.FieldA,\n\t\t\tFieldB: probeSpec.FieldsEqual.FieldB,\n\t\t}\n\n" +
+		"\tcase probeSpec.Condition != nil:\n\t\tprober = &probing.ConditionProbe{\n\t\t\tType:   probeSpec.Condition.Type,\n\t\t\tStatus: probeSpec.Condition.Status,\n\t\t}\n\n" +
+		"\tcase probeSpec.CEL != nil:\n\t\tprober, err = probing.NewCELProbe(\n\t\t\tprobeSpec.CEL.Rule,\n\t\t\tprobeSpec.CEL.Message,\n\t\t)\n\t\tif err != nil {\n\t\t\treturn nil, false, err\n\t\t}\n\n" +
+		"\tdefault:\n\t\treturn nil, false, nil\n\t}\n\treturn prober, true, nil\n}\n\n"
 	const prsEntry = "\t\tvar (\n\t\t\tprobe probing.Prober\n\t\t\terr   error\n\t\t)\n\t\tprobe, err = ParseProbes(ctx, pkgProbe.Probes)\n\t\tif err != nil {\n\t\t\treturn nil, fmt.Errorf(\"parsing probe #%d: %w\", i, err)\n\t\t}\n" +
 		"\t\tprobe, err = ParseSelector(ctx, pkgProbe.Selector, probe)\n\t\tif err != nil {\n\t\t\treturn nil, fmt.Errorf(\"parsing selector of probe #%d: %w\", i, err)\n\t\t}\n"
 	const prsEntryCall = "\t\tprobe, err := c17tParseEntry(ctx, i, pkgProbe)\n\t\tif err != nil {\n\t\t\treturn nil, err\n\t\t}\n"
@@ -167,6 +177,35 @@ func init() {
 		Mutant{Prop: "C17", Name: "r3-probe-helper-known-test-inverted", File: prs,
 			Old: prsSwitch, New: strings.Replace(prsHelperCall, "if !known {", "if known {", 1),
 			More:   []Edit{{File: prs, Old: prsProbesDoc, New: prsHelper + prsProbesDoc}},
+			Expect: []string{"C17.R3@"}},
+		Mutant{Prop: "C17", Name: "r3-benign-probe-helper-shared-success-return", File: prs, Benign: true,
+			Old: prsSwitch, New: prsHelperCall2,
+			More: []Edit{{File: prs, Old: prsProbesDoc, New: prsHelper2 + prsProbesDoc}}},
+		Mutant{Prop: "C17", Name: "r3-probe-helper-shared-return-cel-reported-unknown", File: prs,
+			Old: prsSwitch, New: prsHelperCall2,
+			More: []Edit{{File: prs, Old: prsProbesDoc, New: strings.Replace(prsHelper2,
+				"\t\t\treturn nil, false, err\n\t\t}\n\n", "\t\t\treturn nil, false, err\n\t\t}\n\t\treturn prober, false, nil\n\n", 1) + prsProbesDoc}},
+			Expect: []string{"C17.R3@"}},
+		Mutant{Prop: "C17", Name: "r3-probe-helper-shared-return-condition-reported-unknown", File: prs,
+			Old: prsSwitch, New: prsHelperCall2,
+			More: []Edit{{File: prs, Old: prsProbesDoc, New: strings.Replace(prsHelper2,
+				"\treturn prober, true, nil\n", "\treturn prober, probeSpec.Condition == nil, nil\n", 1) + prsProbesDoc}},
+			Expect: []string{"C17.R3@"}},
+		Mutant{Prop: "C17", Name: "r3-probe-helper-shared-return-cel-error-swallowed-as-unknown", File: prs,
+			Old: prsSwitch, New: prsHelperCall2,
+			More: []Edit{{File: prs, Old: prsProbesDoc, New: strings.Replace(prsHelper2,
+				"\t\tif err != nil {\n\t\t\treturn nil, false, err\n\t\t}\n", "\t\tif err != nil || probeSpec.CEL.Message == \"\" {\n\t\t\treturn nil, false, nil\n\t\t}\n", 1) + prsProbesDoc}},
+			Expect: []string{"C17.R3@"}},
+		// the same helper kept as a call (a defer keeps the normaliser from merging it)
+		Mutant{Prop: "C17", Name: "r3-benign-probe-helper-shared-return-not-merged", File: prs, Benign: true,
+			Old: prsSwitch, New: prsHelperCall2,
+			More: []Edit{{File: prs, Old: prsProbesDoc, New: strings.Replace(prsHelper2,
+				"err error) {\n\tswitch {\n", "err error) {\n\tdefer func() { _ = known }()\n\tswitch {\n", 1) + prsProbesDoc}}},
+		Mutant{Prop: "C17", Name: "r3-probe-helper-not-merged-cel-reported-unknown", File: prs,
+			Old: prsSwitch, New: prsHelperCall2,
+			More: []Edit{{File: prs, Old: prsProbesDoc, New: strings.Replace(strings.Replace(prsHelper2,
+				"err error) {\n\tswitch {\n", "err error) {\n\tdefer func() { _ = known }()\n\tswitch {\n", 1),
+				"\t\t\treturn nil, false, err\n\t\t}\n\n", "\t\t\treturn nil, false, err\n\t\t}\n\t\treturn prober, false, nil\n\n", 1) + prsProbesDoc}},
 			Expect: []string{"C17.R3@"}},
 		Mutant{Prop: "C17", Name: "r3-benign-entry-helper", File: prs, Benign: true,
 			Old: prsEntry, New: prsEntryCall,
